@@ -853,3 +853,31 @@ func init() {
 		IgnoreKinds: []string{"hang", "deadlock", "spin"},
 	}
 }
+
+func init() {
+	checks["C04"] = &CheckDef{
+		ID: "C04",
+		Jobs: func(tier string, p *Program) []*Job {
+			var jobs []*Job
+			lens := [][2]int{{0, 1}, {1, 0}, {2, 4}, {4, 2}, {5, 5}, {7, 1}, {1, 7}, {8, 6}}
+			if tier == "thorough" {
+				lens = append(lens, [2]int{10, 3}, [2]int{3, 10}, [2]int{12, 12}, [2]int{14, 5}, [2]int{6, 16}, [2]int{18, 8})
+			}
+			for _, l := range lens {
+				j := mkJob(".ZZ_C04_Screen", shellSetup, "n1", itoa(l[0]), "n2", itoa(l[1]))
+				j.Reach = []string{"frame2"}
+				jobs = append(jobs, j)
+			}
+			return jobs
+		},
+		Assumptions: []string{
+			"terminal = VT100 model of the harness package (cursor movement, CR/LF, EL/ED, deferred autowrap) fed by the library's output; width symbolic in [3,10]; prompt '> '; buffers of lower-case letters (each one cell wide), cursor anywhere; two successive frames with different buffers (ghosting)",
+			"the reference layout prints prompt + buffer into a second VT model of the same width; the cursor cell of position p is where the next character would be placed (column 0 of the next row after an exactly filled row)",
+			"cursor-position queries are answered ESC[1;1R; the display engine runs unstubbed",
+		},
+		Stubs:  []string{"tty ioctls (symbolic width)", "stdin = zzverif.Script", "stdout -> zzverif.VT"},
+		Bounds: map[string]string{"quick": "buffers up to 8 letters, width 3..10, two frames, single logical line, one-cell characters", "thorough": "buffers up to 18 letters"},
+		Rule:   "one state per completed symbolic path (a path = a class of widths and cursor positions)",
+		IgnoreKinds: []string{"panic", "hang", "deadlock", "spin"},
+	}
+}
